@@ -464,6 +464,8 @@ Next == \/ SetItem \/ SetItemPh \/ Pipe \/ SetSlice \/ PipeStreams \/ PipeUnits
 
 InitFrom(r) == /\ ins = r.ins /\ outs = r.outs /\ sink = r.sink /\ source = r.source /\ path = <<>>
 
+Legal(t) == \A k \in DOMAIN InvNames : InvHolds(t, InvNames[k])
+
 RECURSIVE FirstInvFail(_, _)
 FirstInvFail(t, k) == IF k > Len(InvNames) THEN "ok"
                       ELSE IF ~InvHolds(t, InvNames[k]) THEN "inv." \o InvNames[k]
